@@ -270,27 +270,31 @@ fn gen_delegation_method<'s>(
     attr: &'s EntraitTraitAttr,
     contains_async: ContainsAsync,
 ) -> DelegatingMethod<'s> {
-    let fn_sig = &trait_fn.sig();
-    let fn_ident = &fn_sig.ident;
+    // The delegating method needs an identifier for every parameter, also where
+    // the trait method declares a pattern (`_: T`, `(a, b): T`).
+    let mut fn_sig = trait_fn.sig().clone();
+    crate::signature::fix_fn_param_idents(&mut fn_sig);
+    let fn_ident = fn_sig.ident.clone();
     let impl_t = &generic_idents.impl_t;
 
-    let arguments = fn_sig.inputs.iter().filter_map(|arg| match arg {
-        syn::FnArg::Receiver(_) => None,
-        syn::FnArg::Typed(pat_type) => match pat_type.pat.as_ref() {
-            syn::Pat::Ident(pat_ident) => Some(pat_ident.ident.to_token_stream()),
-            _ => panic!("Found a non-ident pattern, this should be handled in signature.rs"),
-        },
-    });
+    let arguments: Vec<_> = fn_sig
+        .inputs
+        .iter()
+        .filter_map(|arg| match arg {
+            syn::FnArg::Receiver(_) => None,
+            syn::FnArg::Typed(pat_type) => match pat_type.pat.as_ref() {
+                syn::Pat::Ident(pat_ident) => Some(pat_ident.ident.to_token_stream()),
+                _ => panic!("Found a non-ident pattern, this should be handled in signature.rs"),
+            },
+        })
+        .collect();
     let core = &generic_idents.crate_idents.core;
 
-    match (&attr.impl_trait, &attr.delegation_kind) {
+    let call = match (&attr.impl_trait, &attr.delegation_kind) {
         (Some(ImplTrait(_, impl_trait_ident)), Some(SpanOpt(Delegate::ByTrait(_), _))) => {
-            DelegatingMethod {
-                trait_fn,
-                call: quote! {
-                    // TODO: pass additional generic arguments(?)
-                    <#impl_t::Target as #impl_trait_ident<#impl_t>>::#fn_ident(self, #(#arguments),*)
-                },
+            quote! {
+                // TODO: pass additional generic arguments(?)
+                <#impl_t::Target as #impl_trait_ident<#impl_t>>::#fn_ident(self, #(#arguments),*)
             }
         }
         (Some(ImplTrait(_, impl_trait_ident)), Some(SpanOpt(Delegate::ByRef(ref_delegate), _))) => {
@@ -317,31 +321,29 @@ fn gen_delegation_method<'s>(
                 }
             };
 
-            DelegatingMethod { trait_fn, call }
+            call
         }
-        (None, Some(SpanOpt(Delegate::ByRef(RefDelegate::AsRef), _))) => DelegatingMethod {
-            trait_fn,
-            call: quote! {
-                self.as_ref().as_ref().#fn_ident(#(#arguments),*)
-            },
+        (None, Some(SpanOpt(Delegate::ByRef(RefDelegate::AsRef), _))) => quote! {
+            self.as_ref().as_ref().#fn_ident(#(#arguments),*)
         },
-        (None, Some(SpanOpt(Delegate::ByRef(RefDelegate::Borrow), _))) => DelegatingMethod {
-            trait_fn,
-            call: quote! {
-                self.as_ref().borrow().#fn_ident(#(#arguments),*)
-            },
+        (None, Some(SpanOpt(Delegate::ByRef(RefDelegate::Borrow), _))) => quote! {
+            self.as_ref().borrow().#fn_ident(#(#arguments),*)
         },
-        _ => DelegatingMethod {
-            trait_fn,
-            call: quote! {
-                self.as_ref().#fn_ident(#(#arguments),*)
-            },
+        _ => quote! {
+            self.as_ref().#fn_ident(#(#arguments),*)
         },
+    };
+
+    DelegatingMethod {
+        trait_fn,
+        fn_sig,
+        call,
     }
 }
 
 struct DelegatingMethod<'s> {
     trait_fn: &'s TraitFn,
+    fn_sig: syn::Signature,
     call: TokenStream,
 }
 
@@ -355,7 +357,7 @@ impl ToTokens for DelegatingMethod<'_> {
             push_tokens!(stream, attr);
         }
 
-        self.trait_fn.sig().to_tokens(stream);
+        self.fn_sig.to_tokens(stream);
         syn::token::Brace::default().surround(stream, |stream| {
             // if self.needs_async_move && self.trait_fn.entrait_sig.associated_fut.is_some() {
             if false {
